@@ -535,8 +535,19 @@ Loop:
 	return false
 }
 
+// nullContainer reports whether the document was replaced by null, which
+// is held as a nil *partialArray.
+func nullContainer(c container) bool {
+	pa, ok := c.(*partialArray)
+	return ok && pa == nil
+}
+
 func findObject(pd *container, path string, options *ApplyOptions) (container, string) {
 	doc := *pd
+
+	if nullContainer(doc) {
+		return nil, ""
+	}
 
 	split := strings.Split(path, "/")
 
@@ -827,6 +838,10 @@ func (p Patch) add(doc *container, op Operation, options *ApplyOptions) error {
 // creating objects and arrays as needed.
 func ensurePathExists(pd *container, path string, options *ApplyOptions) error {
 	doc := *pd
+
+	if nullContainer(doc) {
+		return nil
+	}
 
 	var err error
 	var arrIndex int
